@@ -96,10 +96,14 @@ pub fn run(tier: &str, seed: u64) {
         for _ in 0..nnext {
           shares.push(ev.next().unwrap());
         }
-        // make gen face a zero draw sometimes: insert a zero candidate
-        if g.chance(1, 3) {
+        // make gen face zero draws: a RUN of 1..8 consecutive zero candidates (raw limbs (0, 0, even):
+        // the top limb is masked to one bit) - gen must keep resampling however long the run is
+        if g.chance(1, 2) {
           rng.script.truncate(rng.used);
-          rng.script.extend([0, 0, 0]);
+          for _ in 0..g.range(1, 8) {
+            rng.script.extend([0, 0, g.next() << 1]);
+          }
+          stat("sharks.gen.zero_runs");
         }
         for _ in 0..ngen {
           shares.push(ev.gen(&mut rng));
@@ -143,6 +147,49 @@ pub fn run(tier: &str, seed: u64) {
       }
     }
   }
+  // the Evaluator through the whole Iterator API (nth / skip / step_by / take), also on a dealer
+  // that has already handed out shares: the k-th item must be the point after the previous one
+  for _ in 0..(if quick(tier) { 40 } else { 600 }) {
+    let t = g.range(1, 6) as u32;
+    let sd = g.next();
+    let mut rng = SmRng(Sm(sd));
+    let secret = le24(g.next() as u128, 0).to_vec();
+    let sharks_ = Sharks(t);
+    let mut ev = sharks_.dealer_rng(&secret, &mut rng).unwrap();
+    let mut toks = Vec::new();
+    let mut shares: Vec<Share> = Vec::new();
+    for _ in 0..g.range(1, 4) {
+      match g.below(5) {
+        0 => {
+          toks.push("next".to_string());
+          shares.push(ev.next().unwrap());
+        }
+        1 => {
+          let n = g.below(4) as usize;
+          toks.push(format!("nth:{}", n));
+          shares.push(ev.nth(n).unwrap());
+        }
+        2 => {
+          let (n, c) = (g.below(4) as usize, g.range(1, 3) as usize);
+          toks.push(format!("skip:{}:{}", n, c));
+          shares.extend(ev.by_ref().skip(n).take(c));
+        }
+        3 => {
+          let (st, c) = (g.range(1, 3) as usize, g.range(1, 3) as usize);
+          toks.push(format!("step:{}:{}", st, c));
+          shares.extend(ev.by_ref().step_by(st).take(c));
+        }
+        _ => {
+          let c = g.range(1, 3) as usize;
+          toks.push(format!("take:{}", c));
+          shares.extend(ev.by_ref().take(c));
+        }
+      }
+    }
+    let hs: Vec<String> = shares.iter().map(|s| hex(&share_bytes(s))).collect();
+    emit(&format!("sharks.iter {} {} {} {}", t, hex(&secret), sd, toks.join(",")), &format!("ok {}", hs.join(",")));
+    stat("sharks.iterator_api");
+  }
   // thresholds at integer-width boundaries (2^8, 2^16): the RNG is a SplitMix64 stream identified by
   // its seed (the driver runs the same generator), so no word list has to be transmitted
   let bounds: &[u32] = if quick(tier) { &[255, 256, 257, 65535, 65536, 65537] } else { &[255, 256, 257, 1023, 1024, 4095, 4096, 65535, 65536, 65537, 65538, 131072, 131073] };
@@ -160,7 +207,7 @@ pub fn run(tier: &str, seed: u64) {
   // recover on hand-made shares (arbitrary points, not on any polynomial). The x-coordinates come
   // mostly from a small pool of RELATED values (equal modulo 2^64 / 2^128, adjacent, negatives of
   // each other) so that any dedup / comparison shortcut on a truncated or transformed key shows.
-  let mut pool: Vec<[u8; 24]> = Vec::new();
+  let mut pool: Vec<[u8; 24]> = vec![le24(0, 0)]; // x = 0 is a decodable share point
   for d in 1..4u128 {
     pool.push(le24(d, 0));
     pool.push(le24(d, 1)); // d + 2^128
